@@ -16,6 +16,9 @@ Oracle, per checked call (failure texts start with a tag):
   [round-trip]  sew immediately followed by the matching unsew does not restore the four cell partitions;
   [oracle-model] the cells recomputed after the call are not the ones predicted from the corner/side/face
                 identifications of the call (would be a bug of this file or an unexpected topology).
+A data-clause failure of a 1-sew/1-unsew on a dart of a 3-sewn face is prefixed with `[1-sew-on-3-sewn-face]` when
+`one_sew_signature` recognises its cause (the vertex ids computed by one_sew/one_unsew on the open 3-sewn face are not
+the smallest darts of the vertex cells); only a known finding with matcher kind `one-sew-on-3-sewn-face` absorbs it.
 The data clauses are evaluated on well-formed, mirrored maps with closed faces (2-/3-calls: before the call;
 1-sew: after it; 1-unsew: before it) and, per cell kind, only when no cell takes part in two identifications of
 the call (the property's proviso) — otherwise the kind is counted in `skipped-multi`.
@@ -63,8 +66,11 @@ SPEC = {
     "not_proved": [
         "identification of the computed identifiers with cells (new cell = union of the two old cells, 3-D vertex-cell calculus): oracle only",
         "3-sew edge/face placement and 3-unsew placement: oracle only",
-        "ring-closing configurations and every configuration where a cell takes part in two identifications of one call: "
+        "ring-closing configurations where a cell takes part in two identifications of one call, and every other such configuration: "
         "correspondence only (the data clause of the oracle is skipped there, counted as skipped-multi)",
+        "1-sew/1-unsew of a dart of a 3-sewn face whose vertex has a 2-free dart misplace the vertex data (one_sew/one_unsew compute "
+        "vertex ids on the open 3-sewn face, where vertex_id_transac is not symmetric): genuine defect found by the oracle, reported as "
+        "a known finding (matcher kind one-sew-on-3-sewn-face) — the 1-sew/1-unsew data clause is false there",
     ],
 }
 
